@@ -2,10 +2,10 @@
 package c08
 
 import (
-	"os"
 	"bytes"
 	"encoding/base64"
 	"fmt"
+	"os"
 	"strings"
 	"time"
 
@@ -589,6 +589,42 @@ func runLinkHistory(r *ev.Run) {
 	}
 }
 
+// checkStoredRoute: the route a task takes is the chain of parents; the teamserver also
+// keeps it in the link table and reads it back (Teamserver.ParentOf / LinksOf) to rebuild
+// the chain when it starts.  For every agent of the chain what those two calls answer is
+// the route in force - for every 32-bit id.
+func checkStoredRoute(r *ev.Run, w *world, shape string) {
+	for i, n := range w.nodes {
+		a := w.ts.Agent(n.id)
+		if a == nil {
+			continue
+		}
+		detail := map[string]any{"shape": shape, "ids": idsHex(w), "agent": fmt.Sprintf("%08x", n.id)}
+		pid, err := w.ts.T.ParentOf(a)
+		switch {
+		case n.parent < 0 && err == nil:
+			r.Violate("stored-route/parent-of-a-direct-agent/"+idClass(n.id), fmt.Sprintf("the link table names %08x as the parent of the direct agent %08x", uint32(pid), n.id), detail)
+		case n.parent >= 0 && (err != nil || uint32(pid) != w.nodes[n.parent].id):
+			r.Violate("stored-route/parent/"+idClass(n.id), fmt.Sprintf("agent %08x is reached through %08x, the link table read back through Teamserver.ParentOf answers %08x (err=%v): after a restart its tasks do not take the chain", n.id, w.nodes[n.parent].id, uint32(pid), err), detail)
+		}
+		want := map[uint32]bool{}
+		for j, c := range w.nodes {
+			if c.parent == i && j != i {
+				want[c.id] = true
+			}
+		}
+		got := map[uint32]bool{}
+		for _, l := range w.ts.T.LinksOf(a) {
+			got[uint32(l)] = true
+		}
+		if fmt.Sprint(got) != fmt.Sprint(want) {
+			r.Violate("stored-route/links/"+idClass(n.id), fmt.Sprintf("agent %08x relays for %v, Teamserver.LinksOf answers %v", n.id, want, got), detail)
+		}
+		r.Eval(1)
+	}
+	r.Outcome("stored-route/agrees")
+}
+
 func Run(r *ev.Run) {
 	r.Rule = "pivot chains of depth 1..5 and one 2x2 tree; agent ids from {1,7fffffff,80000000,deadbeef,ffffffff,100} in every ordered assignment without repetition for <=4 agents (covering rotations beyond); distinct key/IV per agent; every chain is built through the real listener and real SMB-connect callbacks; for every non-root target x 6 task variants the first hop's check-in response is unwrapped hop by hop by the reference pipe framing; for every non-root agent 4 relayed-callback cases (outstanding at child / parent only / nowhere; child's / parent's key). distinct = outcome classes"
 	r.Assume("the Demon's SMB framing is the demonwire transcription of TransportSmb.c / Command.c", "6 representative agent ids stand for all 32-bit ids (both sides of 0x80000000, the magic value, all-ones)")
@@ -637,6 +673,7 @@ func Run(r *ev.Run) {
 			}
 			checkDown(r, w, j.sh.name)
 			checkUp(r, w, j.sh.name)
+			checkStoredRoute(r, w, j.sh.name)
 			w.ts.Close()
 		}
 	})
